@@ -74,11 +74,14 @@ func drawC08(t *rapid.T) *c08Scenario {
 			for _, p := range w.Bound {
 				p.Spec.Containers[0].Resources.Requests[corev1.ResourceCPU] = resource.MustParse("5")
 			}
+			// three 5-cpu pods fill a 16-cpu node: nothing fits on the neighbours, every pod needs its own 8-cpu node
 			n0 := len(w.Bound)
-			for i := 0; i < n0; i++ {
-				q := w.Bound[i].DeepCopy()
-				q.Name, q.UID = fmt.Sprintf("bound-%02d", n0+i), types.UID(fmt.Sprintf("bound-uid-%02d", n0+i))
-				w.Bound = append(w.Bound, q)
+			for k := 1; k <= 2; k++ {
+				for i := 0; i < n0; i++ {
+					q := w.Bound[i].DeepCopy()
+					q.Name, q.UID = fmt.Sprintf("bound-%02d", k*n0+i), types.UID(fmt.Sprintf("bound-uid-%02d", k*n0+i))
+					w.Bound = append(w.Bound, q)
+				}
 			}
 		}
 	}
@@ -424,6 +427,19 @@ func runC08(s *c08Scenario, faultIdx, kind int) *c08Result {
 		}
 		stickyKey = "" // a persistent failure lasts for one controller call
 		checkDisjoint(i)
+		if os.Getenv("VERIF_DBG") != "" {
+			for _, qc := range r.queue.GetCommands() {
+				var rs []string
+				for _, rp := range qc.Replacements {
+					st := "gone"
+					if nc := w.GetNodeClaim(rp.Name); nc != nil {
+						st = fmt.Sprint(nc.StatusConditions().Get(v1.ConditionTypeInitialized).IsTrue())
+					}
+					rs = append(rs, fmt.Sprintf("%s flagged=%v api=%s", rp.Name, rp.Initialized, st))
+				}
+				fmt.Printf("C08DBG fault=%d step %d %s: cmd %s candidates=%d repl=%v\n", faultIdx, i, st.Kind, qc.Reason(), len(qc.Candidates), rs)
+			}
+		}
 	}
 	res.faultable = seen
 
